@@ -731,3 +731,151 @@ def _(c):
         ins = np.ones(max(k, 0), dtype=np.int32)
     gutils.points_inside_polygon(pts, poly, inside=ins, atol=c["atol"],
                                  nprint=c["nprint"])
+
+
+# ---------------------------------------------------------------- large sizes
+# "whatever the array lengths": a fixed list of large (but ordinary) sizes
+# per kernel family; data are built from the size, element classes drawn.
+def _ramp(n, kind):
+    x = np.arange(n, dtype=np.float64) % 1013 / 7.
+    if kind == "nan-sprinkled":
+        x[::97] = np.nan
+    elif kind == "constant":
+        x[:] = 2.5
+    return x
+
+
+def _chain_grid(nr, nc):
+    """Every cell flows east, the last column flows south: one outlet."""
+    g = Grid("fd", nc, nr, dtype=np.int64)
+    d = np.ones((nr, nc), dtype=np.int64)
+    d[:, -1] = 4
+    d[-1, -1] = 0
+    g.data = d
+    return g
+
+
+def large_call(c):
+    fn, n, m = c["fn"], c["n"], c["m"]
+    x = _ramp(n, c["kind"])
+    if fn == "dscore":
+        sim = np.vstack([_ramp(m, c["kind"]) + 2 * i for i in range(n)])
+        metrics.dscore(np.arange(n, dtype=np.float64), sim)
+    elif fn == "ensrank":
+        sim = np.vstack([_ramp(m, c["kind"]) + 2 * i for i in range(n)])
+        c_hydrodiy_stat.ensrank(1e-6, np.ascontiguousarray(sim),
+                                np.zeros((n, n)), np.zeros(n))
+    elif fn == "crps":
+        sim = (x[:, None] + np.arange(m)[None, :] % 17).copy()
+        metrics.crps(x.copy(), sim)
+    elif fn == "pit+alpha":
+        sim = (x[:, None] + np.arange(m)[None, :] % 17 - 8.).copy()
+        metrics.pit(x.copy(), sim)
+        metrics.alpha(x.copy(), sim)
+    elif fn == "uniformity":
+        u = (np.arange(n) + 0.5) / n
+        metrics.anderson_darling_test(u)
+        metrics.cramer_von_mises_test(u)
+    elif fn == "aggregate":
+        idx = (np.arange(n) // max(m, 1)).astype(np.int64)
+        dutils.aggregate(idx, x, 0, 3)
+        dutils.flathomogen(idx, x, 3)
+        signatures.goue(idx, x)
+    elif fn == "qualitycontrol":
+        qualitycontrol.islinear(x, 3, 1e-6, 0.)
+        qualitycontrol.ismisscens(x)
+    elif fn == "signatures":
+        signatures.eckhardt(x)
+        signatures.fdcslope(x)
+    elif fn == "armodels":
+        p = np.full(m, 0.9 / m)
+        y = armodels.armodel_sim(p, x, 0., None)
+        armodels.armodel_residual(p, y, 0., None)
+    elif fn == "var2h":
+        idx = pd.date_range("2001-01-01", periods=n, freq="7min")
+        dutils.var2h(pd.Series(x, index=idx))
+    elif fn == "pareto_front":
+        P = np.column_stack([_ramp(n, c["kind"]), -_ramp(n, c["kind"]),
+                             np.arange(n) % 11.])[:, :m]
+        sutils.pareto_front(np.ascontiguousarray(P), 1)
+    elif fn == "olsleverage":
+        X = np.column_stack([np.ones(n)] + [_ramp(n, "finite") ** (k + 1)
+                                            for k in range(m - 1)])
+        c_hydrodiy_stat.olsleverage(np.ascontiguousarray(X), np.eye(m),
+                                    np.zeros(n))
+    elif fn == "catchment":
+        fd = _chain_grid(n, m)
+        ca = Catchment("c", fd)
+        ca.delineate_area(n * m - 1)
+        ca.delineate_boundary()
+        ca.compute_flowpathlengths()
+        ca.upstream(np.arange(0, n * m, 7, dtype=np.int64))
+        ca.downstream(np.arange(0, n * m, 7, dtype=np.int64))
+        ca.intersect(Grid("g", max(m // 10, 1), max(n // 10, 1),
+                          cellsize=10.))
+        voronoi(ca, np.array([[0.5, 0.5], [m - 0.5, n - 0.5],
+                              [m / 2, n / 2]]))
+        delineate_river(fd, 0)
+    elif fn == "accumulate":
+        fd = _chain_grid(n, m)
+        accumulate(fd, nprint=10**9, max_accumulated_cells=n * m)
+        slope(fd, fd.clone(np.float64), nprint=10**9)
+    elif fn == "points_inside_polygon":
+        t = np.linspace(0, 2 * np.pi, m)
+        poly = np.column_stack([np.cos(t), np.sin(t)])
+        pts = np.column_stack([_ramp(n, "finite") % 3 - 1.5,
+                               _ramp(n, "finite")[::-1] % 3 - 1.5])
+        gutils.points_inside_polygon(np.ascontiguousarray(pts), poly)
+    else:
+        raise KeyError(fn)
+
+
+LARGE = [
+    # fn, n, m (quick) ; (thorough adds the entries flagged True)
+    ("dscore", 3, 600_000, False), ("ensrank", 2, 300_000, False),
+    ("dscore", 40, 20_000, True), ("ensrank", 3, 2_000_000, True),
+    ("crps", 3000, 500, False), ("crps", 3, 600_000, False),
+    ("crps", 200_000, 3, True),
+    ("pit+alpha", 2000, 300, False), ("pit+alpha", 3, 600_000, True),
+    ("uniformity", 1_000_000, 0, False), ("uniformity", 65_536, 0, False),
+    ("uniformity", 46_341, 0, False),
+    ("aggregate", 2_000_000, 30, False), ("aggregate", 2_000_000, 0, True),
+    ("qualitycontrol", 2_000_000, 0, False),
+    ("signatures", 2_000_000, 0, False),
+    ("armodels", 1_000_000, 3, False), ("armodels", 100_000, 12, True),
+    ("var2h", 300_000, 0, False),
+    ("pareto_front", 3000, 3, False), ("pareto_front", 20_000, 2, True),
+    ("olsleverage", 300_000, 4, False),
+    ("catchment", 300, 300, False), ("catchment", 2, 100_000, True),
+    ("catchment", 100_000, 2, True), ("catchment", 1500, 1500, True),
+    ("accumulate", 300, 300, False), ("accumulate", 3, 100_000, True),
+    ("points_inside_polygon", 300_000, 50, False),
+]
+
+
+def large_enum(tier):
+    for fn, n, m, thorough_only in LARGE:
+        if thorough_only and tier != "thorough":
+            continue
+        for kind in (("finite",) if tier == "quick"
+                     else ("finite", "nan-sprinkled", "constant")):
+            yield {"fn": fn, "n": n, "m": m, "kind": kind, "extreme": True}
+
+
+def large_oracle(case):
+    global TIMEOUT
+    old, TIMEOUT = TIMEOUT, 240
+    try:
+        res = forked(lambda: large_call(case))
+    finally:
+        TIMEOUT = old
+    if res == "TIMEOUT":
+        return {"nt": False, "labels": ["timeout:inconclusive:" + case["fn"]]}
+    if res is not None:
+        raise Violation(f"sanitizer/crash [{bucket(res)}]: {res}")
+    return {"nt": True, "labels": ["large:" + case["fn"]]}
+
+
+SUBS.append(Sub("C05.large-sizes", large_oracle, enumerate=large_enum,
+                shards=(8, 16), budget=(900, 7200),
+                bucket=lambda msg: bucket(msg.split("]: ", 1)[-1])))
